@@ -258,3 +258,10 @@ def run(ctx: Ctx, rep: Report, tier: str):
     rep.rule("C02.R15", "an edit wins over a concurrent path change: in sync() a side with unchanged content yields to the other side's pending content change unconditionally, "
              "so the newer bytes are transferred before a rename / move-out of this side is acted on", 1)
     section(rep, lambda: content_first_deferral(ctx, rep, "C02.R15"))
+    from rules.common import provider_write_conditions
+    rep.rule("C02.R16", "WHEN the engine writes to a provider is fixed: each of the engine's provider-mutating calls (delete, upload, create, mkdirs, rename) is issued under "
+             "exactly the path condition inventoried for it", 10)
+    section(rep, lambda: provider_write_conditions(ctx, rep, "C02.R16"))
+    from rules.common import refresh_covers_both_sides
+    rep.rule("C02.R17", "a delete never wins over a peer edit that is still in flight: the pre-sync refresh re-reads the quiet side too (C14.W1)", 1)
+    section(rep, lambda: refresh_covers_both_sides(ctx, rep, "C02.R17"))
